@@ -86,3 +86,28 @@ def end_of_month(y, m, d):
 
 def in_weeks(days):
     return abs(days) // 7
+
+
+def parse_iso(text):
+    """concrete form of the assumed contract of pendulum.parse(text, exact=True) used by pyvc (externals.p_parse):
+    (y, m, d) for YYYY / YYYY-MM / YYYY-MM-DD / YYYY-Www / YYYY-Www-D naming an existing date, None (ParserError) otherwise"""
+    import re
+    m1 = re.fullmatch(r"(\d{4})(?:-(\d{2})(?:-(\d{2}))?)?", text)
+    if m1:
+        y = int(m1.group(1))
+        mo = int(m1.group(2)) if m1.group(2) else 1
+        d = int(m1.group(3)) if m1.group(3) else 1
+        return (y, mo, d) if valid(y, mo, d) else None
+    m2 = re.fullmatch(r"(\d{4})-W(\d{2})(?:-(\d))?", text)
+    if m2:
+        cy, w = int(m2.group(1)), int(m2.group(2))
+        wd = int(m2.group(3)) if m2.group(3) else 1
+        if not (1 <= cy <= 9999 and w >= 1 and 1 <= wd <= 7):
+            return None
+        jan4 = om(12 * cy) + 3
+        monday1 = jan4 - weekday0(jan4)
+        o = monday1 + 7 * (w - 1) + wd - 1
+        if monday1 + 7 * (w - 1) + 3 >= om(12 * cy + 12) or o < om(12) or o >= om(12 * 10000):
+            return None
+        return civil(o)
+    return None
